@@ -5,7 +5,7 @@ from vf import cN, cbool, cstr, clist, copt, cpair, cnat
 from ipamgen import O, cjson, cdump, cranges, csubnet, s2ip, ip2s
 
 IMPORTS = ("From Coq Require Import String.\nFrom stdpp Require Import gmap.\nFrom Galaxy.Base Require Import Strs.\n"
-           "From Galaxy.Model Require Import Nets Pool Ipam Plugin PluginPool.\nFrom Galaxy.Model Require Keys.\n"
+           "From Galaxy.Model Require Import Nets Pool Ipam Plugin PluginPool PluginCrash.\nFrom Galaxy.Model Require Keys.\n"
            "From Galaxy.Corr Require Import CorrBase Ipamc Pluginc.\n")
 
 NODES = {"node1": "10.1.0.7", "node2": "10.2.0.9", "node3": "10.3.0.5", "node4": "10.77.0.1"}
@@ -327,6 +327,17 @@ def translate(hist, obs, ext=False):
             elif lp is not None:
                 return clist(terms), len(terms), "unknown-lister-incarnation", meta
             creates = [c for c in calls if c[0] == "create"]
+            inj = [c for c in calls if c[2]]
+            if "fcrash" in op and inj and inj[0][0] == "create":
+                # the process died inside the multi-IP allocation (a death at a later call equals that call failing: below)
+                if ext != 3:
+                    return clist(terms), len(terms), "crash-in-plain-history", meta
+                k = len([c for c in creates if not c[2]])
+                t3 = "(PCrashBind %s %s %s %s %s)" % (cstr(op["ns"]), cstr(op["name"]), cstr(o.get("uid", "")), cstr(o.get("node", op["node"])), cnat(k))
+                terms.append("(" + t3 + ", (R1 RErr), " + cwdump(d) + ")")
+                meta.append((k, len(terms) - 1, t3))
+                prev = d
+                continue
             if any(c[0] == "delete" and c[2] for c in calls):
                 return clist(terms), len(terms), "fault-in-rollback", meta
             choice = s2ip(creates[0][1]) if creates else None
@@ -424,6 +435,8 @@ def translate(hist, obs, ext=False):
             t2 = "(PApiPool %s %s %s %s %s)" % (cstr(op["name"]), cN(op["size"]), cbool(op.get("prealloc", False)), clist(cN(x) for x in picks),
                                                "None" if nfail is None else "(Some %s)" % cnat(nfail))
             out2 = "(RPool %s)" % {"ok": "PoolOk", "notenough": "PoolNotEnough"}.get(res, "PoolErr")
+            if ext == 3:
+                t2 = "(P2 %s)" % t2
             terms.append("(" + t2 + ", " + out2 + ", " + cwdump(d) + ")")
             meta.append((k, len(terms) - 1))
             prev = d
@@ -437,6 +450,8 @@ def translate(hist, obs, ext=False):
             return clist(terms), len(terms), "unmodelled-op-" + k, meta
         if ext:
             t, out = "(P1 %s)" % t, "(R1 %s)" % out
+        if ext == 3:
+            t = "(P2 %s)" % t
         terms.append("(" + t + ", " + out + ", " + cwdump(d) + ")")
         meta.append((k, len(terms) - 1, t))
         prev = d
